@@ -9,6 +9,7 @@ import (
 	"context"
 	"encoding/json"
 	"fmt"
+	"net"
 	"net/http/httptest"
 	"os"
 	"sort"
@@ -104,6 +105,31 @@ var statusNames = map[api.IPFSPinStatus]string{
 	api.IPFSPinStatusRecursive: "recursive", api.IPFSPinStatusIndirect: "indirect", api.IPFSPinStatusUnpinned: "unpinned",
 }
 
+// listenLoopback binds 127.0.0.1:0, retrying with a short back-off.
+func listenLoopback() (net.Listener, error) {
+	var l net.Listener
+	var err error
+	for i := 0; i < 8; i++ {
+		if l, err = net.Listen("tcp4", "127.0.0.1:0"); err == nil {
+			return l, nil
+		}
+		time.Sleep(time.Duration(50*(i+1)) * time.Millisecond)
+	}
+	return nil, fmt.Errorf("listen: %v", err)
+}
+
+// selfNetProblem recognises failures of the harness' own plumbing (binding the
+// scripted daemon, or the connector unable to even dial it): never a verdict.
+func selfNetProblem(msg string) bool {
+	for _, m := range []string{"listen:", "bind:", "listen tcp", "cannot assign requested address", "too many open files",
+		"connect: connection refused", "no route to host", "address already in use", "failed to parse multiaddr"} {
+		if strings.Contains(msg, m) {
+			return true
+		}
+	}
+	return false
+}
+
 func runCase(c *caseIn, names *hx.Names, client *rpc.Client) (*rec, error) {
 	// abstract c1 (target) / c2 (source): CIDv0 / CIDv1, or the other way round
 	c1, c2 := names.Cid("c1"), names.Cid("c2")
@@ -130,7 +156,15 @@ func runCase(c *caseIn, names *hx.Names, client *rpc.Client) (*rec, error) {
 		origins = append(origins, a)
 		d.origins[a.String()] = i
 	}
-	srv := httptest.NewServer(d)
+	// own listener on the IPv4 loopback (httptest.NewServer silently falls back
+	// to [::1] when 127.0.0.1:0 cannot be bound, e.g. transient port exhaustion)
+	l, err := listenLoopback()
+	if err != nil {
+		return nil, err
+	}
+	srv := httptest.NewUnstartedServer(d)
+	srv.Listener = l
+	srv.Start()
 	closed := false
 	closeAll := func() {
 		if !closed {
@@ -142,9 +176,11 @@ func runCase(c *caseIn, names *hx.Names, client *rpc.Client) (*rec, error) {
 	}
 	defer closeAll()
 
-	hostport := strings.TrimPrefix(srv.URL, "http://")
-	parts := strings.Split(hostport, ":")
-	node, err := ma.NewMultiaddr(fmt.Sprintf("/ip4/%s/tcp/%s", parts[0], parts[1]))
+	ta, ok := l.Addr().(*net.TCPAddr)
+	if !ok || ta.IP.To4() == nil {
+		return nil, fmt.Errorf("listen: unexpected listener address %v", l.Addr())
+	}
+	node, err := ma.NewMultiaddr(fmt.Sprintf("/ip4/%s/tcp/%d", ta.IP.To4().String(), ta.Port))
 	if err != nil {
 		return nil, err
 	}
@@ -222,8 +258,8 @@ func runCase(c *caseIn, names *hx.Names, client *rpc.Client) (*rec, error) {
 		out.Res = "err"
 		out.Err = cerr.Error()
 	}
-	if len(out.Err) > 200 {
-		out.Err = out.Err[:200]
+	if len(out.Err) > 400 {
+		out.Err = out.Err[:400]
 	}
 	closeAll()
 	nz := func(s []string) []string {
@@ -240,8 +276,25 @@ func runCase(c *caseIn, names *hx.Names, client *rpc.Client) (*rec, error) {
 // its scripted stalls account for (a scheduling hiccup of the shared machine
 // can make an honest answer miss a 250..600 ms timer); the last attempt counts.
 func runSteady(c *caseIn, names *hx.Names, client *rpc.Client) (*rec, error) {
+	netRetries := 0
 	for attempt := 0; ; attempt++ {
 		r, err := runCase(c, names, client)
+		// the scripted daemon could not be bound, or the connector could not dial
+		// it at all (nothing reached the daemon): back off and run the case again
+		selfNet := (err != nil && selfNetProblem(err.Error())) ||
+			(err == nil && r.Out.Res != "ok" && len(r.Out.Reqs) == 0 && len(r.Out.Swarm) == 0 && selfNetProblem(r.Out.Err))
+		if selfNet {
+			netRetries++
+			if netRetries <= 6 {
+				time.Sleep(time.Duration(150*netRetries) * time.Millisecond)
+				attempt--
+				continue
+			}
+			if err == nil {
+				err = fmt.Errorf("connector could not reach the scripted daemon: %s", r.Out.Err)
+			}
+			return nil, err
+		}
 		if err != nil || attempt >= 2 {
 			return r, err
 		}
